@@ -184,7 +184,11 @@ class ExprAttribute(Expr):
     """The different parts of the dotted chain."""
 
     def iterate(self, *, flat: bool = True) -> Iterator[str | Expr]:
-        yield from _join(self.values, ".", flat=flat)
+        values: Sequence[str | Expr | tuple[str | Expr, ...]] = self.values
+        if isinstance(self.first, str) and self.first.isdecimal():
+            # An integer literal is parenthesized: `1.real` is not valid Python.
+            values = [("(", self.first, ")"), *self.values[1:]]
+        yield from _join(values, ".", flat=flat)
 
     def append(self, value: ExprName) -> None:
         """Append a name to this attribute.
